@@ -117,14 +117,17 @@ def _kinetic(rec):
     return 0.5 * tot
 
 
-def sc_trial(V, ensemble="NVT", warmup=False):
+def sc_trial(V, ensemble="NVT", warmup=False, lefthanded=False):
     from ase.units import _e, _hplanck, _Nav, kB
 
-    info = f"O1:{ensemble}:warmup={warmup}"
+    info = f"O1:{ensemble}:warmup={warmup}" + (":left-handed-cell" if lefthanded else "")
     T = 300.0
     beta = 1.0 / (kB * T)
     n = 0 if ensemble == "muVT0" else 2
     atoms = mcsim.make_atoms(V, n, momenta=(ensemble == "HMC"), extras=False)
+    if lefthanded:
+        # the same lattice with two vectors exchanged: negative determinant, the volume is still |det|
+        atoms.set_cell(np.array(mcsim.CELL)[[1, 0, 2]], scale_atoms=False)
     pes = mcsim.PES(V)
     atoms.calc = mcsim.ModelCalc("caching", pes)
     labels = np.arange(n)
@@ -271,6 +274,8 @@ def _plan(tier):
     P = [("trial", dict(ensemble=e), ("judged",)) for e in ("NVT", "HMC", "NPT", "muVT", "muVT0")]
     for e in ("NVT", "muVT", "muVT0"):
         P.append(("trial", dict(ensemble=e, warmup=True), ("judged",)))
+    for e in ("NPT", "muVT"):
+        P.append(("trial", dict(ensemble=e, lefthanded=True), ("judged",)))
     for op in ("Ball", "Sphere", "Box"):
         P.append(("proposal", dict(which="disp", op=op), ("done",)))
     P.append(("proposal", dict(which="rotation", n=2, cell="tric", with_translation=False), ("done",)))
